@@ -289,9 +289,110 @@ def check_empty_edge_throws(prog, fn, r):
         r.add(key, fn.loc(n), ok, detail or "empty result leads only to a throw")
 
 
+# ---------------------------------------------------------------- R-C17-3 / R-C17-4
+def _linacc(fn, e, depth=0):
+    """Linear form over zero-argument accessor calls (x.len(), x.start_sector(), ...), parameters and
+    constants; locals through their single initialiser.  None if not linear."""
+    from ..flow import folded
+    e = strip_all(e)
+    if e is None or depth > 10:
+        return None
+    v = folded(e)
+    if v is not None:
+        return {"": v}
+    k = e.get("k")
+    if k == "CXXMemberCallExpr" and len(e.get("c", [])) == 1:
+        nm = (strip(e["c"][0]) or {}).get("n")
+        return {"%s()" % nm: 1}
+    if k == "DeclRefExpr":
+        if e.get("dk") == "ParmVar":
+            return {"param:%s" % e.get("n"): 1}
+        written = any(d == e.get("d") for x in fn.walk() for d, _ in flow.written_decls(x))
+        if not written:
+            for vd in fn.walk():
+                if vd.get("k") == "VarDecl" and vd.get("d") == e.get("d") and vd.get("c"):
+                    return _linacc(fn, vd["c"][0], depth + 1)
+        return None
+    if k in ("CStyleCastExpr", "CXXStaticCastExpr", "CXXFunctionalCastExpr", "CXXConstructExpr") and len(e.get("c", [])) == 1:
+        return _linacc(fn, e["c"][0], depth + 1)
+    if k == "BinaryOperator" and e.get("op") in ("+", "-"):
+        a, b = _linacc(fn, e["c"][0], depth + 1), _linacc(fn, e["c"][1], depth + 1)
+        if a is None or b is None:
+            return None
+        out = dict(a)
+        for kk, vv in b.items():
+            out[kk] = out.get(kk, 0) + (vv if e["op"] == "+" else -vv)
+        return out
+    return None
+
+
+def _norm(a):
+    return {k: v for k, v in (a or {}).items() if v != 0}
+
+
+def rule_volume_extent(prog, fixture=False):
+    r = RuleResult("R-C17-3", "each Opus volume is created with its own start and its own length from the disc "
+                   "catalogue (first = start_sector(), extent = len()), a single-volume disc with (0, total "
+                   "sectors of the geometry); and Volume hands exactly those two constructor parameters to the "
+                   "bounds-checking Access object - never a figure from the volume's own catalogue",
+                   floor=0 if fixture else 3)
+    for fn in prog.fnby("init_volumes", required=not fixture):
+        k = 0
+        for n in fn.walk():
+            if n.get("k") == "CallExpr" and notpl(n.get("q") or "") == "std::make_unique" and "Volume" in (n.get("ct") or n.get("t") or ""):
+                a = call_args(n)
+                if len(a) < 5:
+                    continue
+                k += 1
+                first, total = _linacc(fn, a[2]), _linacc(fn, a[3])
+                key = "%s::%s::Volume#%d" % (fn.relfile(), fn.qn, k)
+                if first is None or total is None:
+                    r.undecided.append("%s: cannot express the extent arguments `%s`, `%s` as linear forms" %
+                                       (fn.loc(n), show(a[2]), show(a[3])))
+                    continue
+                f_, t_ = _norm(first), _norm(total)
+                if f_ == {} and list(t_) == ["total_sectors()"] and t_["total_sectors()"] == 1:
+                    r.add(key, fn.loc(n), True, "whole surface: (0, total_sectors())")
+                elif f_ == {"start_sector()": 1} and t_ == {"len()": 1}:
+                    r.add(key, fn.loc(n), True, "(start_sector(), len())")
+                elif set(f_) | set(t_) <= {"start_sector()", "len()", "total_sectors()", ""}:
+                    r.add(key, fn.loc(n), False, "the volume is created with first sector `%s` and extent `%s`; the "
+                          "constructor takes (first sector, number of sectors), so the window reaches into the "
+                          "following volume (or stops short)" % (show(a[2]), show(a[3])))
+                else:
+                    r.undecided.append("%s: extent arguments `%s`, `%s` use accessors this rule does not know" %
+                                       (fn.loc(n), show(a[2]), show(a[3])))
+    for fn in prog.functions.values():
+        if fn.qn != "DFS::Volume::Volume":
+            continue
+        pnames = [p["n"] for p in fn.params]
+        for init in fn.raw.get("inits", []):
+            e = init.get("init")
+            if e is None or "Access" not in ((strip_all(e) or {}).get("ct") or (strip_all(e) or {}).get("t") or ""):
+                continue
+            x = strip_all(e)
+            args = [c for c in x.get("c", []) if (strip(c) or {}).get("k") != "CXXDefaultArgExpr"]
+            key = "%s::%s::%s" % (fn.relfile(), fn.qn, init.get("member"))
+            if len(args) < 2:
+                r.undecided.append("%s: unexpected Access construction" % fn.qn)
+                continue
+            probs = []
+            for idx, want in ((0, 2), (1, 3)):
+                lf = _linacc(fn, args[idx])
+                wantname = "param:%s" % pnames[want] if want < len(pnames) else None
+                if lf is None or _norm(lf) != {wantname: 1}:
+                    src = [y for y in walk(args[idx]) if y.get("k") in ("CXXMemberCallExpr", "MemberExpr")]
+                    probs.append("argument %d is `%s`, not the constructor parameter `%s`%s" %
+                                 (idx + 1, show(args[idx]), pnames[want] if want < len(pnames) else "?",
+                                  " (it reads the volume's own catalogue, which a hostile image controls)" if src else ""))
+            r.add(key, "%s:%d" % (fn.relfile(), fn.line), not probs, "Access(first_sector, total_sectors)" if not probs
+                  else "; ".join(probs))
+    return r
+
+
 def run(ctx):
     prog = ctx.prog("dfs", "N")
-    return [rule_bounds(prog), rule_body_read_failure(prog)]
+    return [rule_bounds(prog), rule_body_read_failure(prog), rule_volume_extent(prog)]
 
 
 SELFTESTS = [
